@@ -593,5 +593,7 @@ class WebSocketApp:
 
             except Exception as e:
                 _logging.error(f"error from callback {callback}: {e}")
+                # an error reported to on_error shows in run_forever's return value
+                self.has_errored = True
                 if self.on_error:
                     self.on_error(self, e)
